@@ -8,6 +8,14 @@ claimed = {
              text='Proved for all inputs: each packet handed to the transport has header length 8 + len(body) in big-endian at bytes 2..3, the channel message type and id, the end-of-message flag exactly when its body is shorter than the body size in force, and its bytes are appended to the wire with the earlier bytes untouched; a successful flush leaves no message open, i.e. the last packet written carries the end-of-message flag for every total length including exact multiples of the packet body size; every package, format and data writer only appends to the output stream it is given. Proof level for these per-function statements.',
              note='Not mechanised: equality of the concatenated bodies on the wire with the packages\' encodings across several flush calls, and the packet-queue invariant at the deferred discard in sendPackets (unclaimed). Assumes the io.Writer contract, one sender per channel, a stable packet size while a message is queued, structurally valid client-built packages. A genuine defect (no end-of-message packet for messages that are exact multiples of the body size) was repaired, see known_findings.txt.',
              ref='3 C01'),
+ 'C02': dict(tech='contract-based deductive verification: packet reader contracts over a ghost transport byte stream (any Read sizes), loop invariants with cuts, VCs from go/ssa, z3/cvc5',
+             text='Proved for every partition of the transport byte stream into Read results: PacketHeader.ReadFrom consumes exactly 8 bytes, decodes them as the big-endian header and fails only if the transport failed; Packet.ReadFrom consumes exactly Header.Length bytes and its body equals the following Length-8 stream bytes in order; WritePacket/tryParsePackage keep the receive queue position valid across failed parse attempts. Together with the queue view (C15) and the parser clause (C07) this makes each delivered package a function of the byte stream only. Proof level for these per-function statements.',
+             note='The relational end-to-end statement (two packetisations of one response deliver the same package sequence) is not itself mechanised, and the reader goroutine Conn.ReadFrom is outside the generator (maps of pointers, goroutines). A genuine defect (packet header split over two reads reported as an error) was repaired, see known_findings.txt.',
+             ref='3 C02'),
+ 'C14': dict(tech='contract-based deductive verification: error-path postconditions of the packet reader over a ghost transport stream with a failure flag, VCs from go/ssa, z3/cvc5',
+             text='Proved for every failure offset and every Read partition: Packet.ReadFrom returns nil, or an error matching io.EOF, only together with a complete packet whose body equals the stream bytes; any other return is an error that occurs only if the transport failed or the context is done; a partial header is never reported as io.EOF. Hence the dispatcher, which forwards a packet only on nil or io.EOF, never forwards incomplete data; incomplete package data inside complete packets is reported as ErrNotEnoughBytes (C07). Proof level for these per-function statements.',
+             note='Time bounds (read timeout) and the absence of a spurious final DONE after a failure are whole-history statements over the reader goroutine and are not mechanised; Conn.ReadFrom itself is outside the generator (maps of pointers, goroutines).',
+             ref='3 C14'),
  'C07': dict(tech='contract-based deductive verification: interface contract on Package/FieldFmt/FieldData.ReadFrom over a ghost byte stream, VCs from go/ssa, z3/cvc5',
              text='Every parser implementation is proved, for all inputs and loop iterations, to return an error matching ErrNotEnoughBytes whenever the abstract stream ran dry during the call, and to leave the dry flag unchanged on success. Proof level because the claim is a per-function postcondition that the VC generator discharges without bounds.',
              note='Assumes the BytesChannel contract (stream semantics) for the channel passed in, closed world of FieldFmt/FieldData/Package implementations, sentinel error variables never reassigned, integers modelled mathematically with explicit wrap, goroutines not modelled. Re-parse after rollback (fresh package per attempt) is part of C02.',
